@@ -15,6 +15,7 @@ import (
 	"math/big"
 	"os"
 	"path/filepath"
+	"reflect"
 	"sync"
 	"time"
 
@@ -248,26 +249,44 @@ type SPConf struct {
 	PlainStores bool `json:"plain_key_stores,omitempty"`
 }
 
-// Live mode: while it is on, Build hands out ONE long-lived instance per configuration class
-// (everything except the clock, the audience URI and the certificate store, which are
-// reassigned on that instance for each call, as an operator or a request handler would).
+// Live mode: while it is on, Build hands out ONE long-lived instance per key configuration
+// (which key stores are given, how, and in what state); every other setting of the fresh
+// configuration - clock, certificate store, audience URI, issuers, endpoints, options, limits -
+// is reassigned on that instance for each call, as an operator or a request handler would.
 // It is used by the single-threaded "live instance" passes of the checks: a decision must
 // follow the inputs and configuration of the current call, not those of an earlier one.
 var live struct {
-	on bool
-	m  map[string]*saml2.SAMLServiceProvider
+	on   bool
+	m    map[string]*saml2.SAMLServiceProvider
+	last []interface{} // results handed out by the previous call (see Remember)
 }
 
 // LiveBegin switches live mode on (single-threaded use only); LiveEnd switches it off.
-func LiveBegin() { live.on, live.m = true, map[string]*saml2.SAMLServiceProvider{} }
-func LiveEnd()   { live.on, live.m = false, nil }
+func LiveBegin() { live.on, live.m, live.last = true, map[string]*saml2.SAMLServiceProvider{}, nil }
+func LiveEnd()   { live.on, live.m, live.last = false, nil, nil }
+
+// LiveOn reports whether live mode is on.
+func LiveOn() bool { return live.on }
+
+// Remember notes a result handed out in live mode; TakeRemembered returns and forgets what
+// was noted since the last take (the caller writes all over it before the next call).
+func Remember(v interface{}) {
+	if live.on && v != nil {
+		live.last = append(live.last, v)
+	}
+}
+
+func TakeRemembered() []interface{} {
+	l := live.last
+	live.last = nil
+	return l
+}
 
 // Build returns a fresh service provider for the configuration (or, in live mode, the
-// long-lived instance of its class, reconfigured).
+// long-lived instance of its key configuration, reconfigured).
 func (c SPConf) Build() *saml2.SAMLServiceProvider {
 	if live.on {
-		k := c
-		k.ClockNs, k.Audience, k.Store = 0, nil, nil
+		k := SPConf{EncField: c.EncField, EncSetter: c.EncSetter, SigField: c.SigField, SigSetter: c.SigSetter, EncCertState: c.EncCertState, PlainStores: c.PlainStores}
 		kb, _ := json.Marshal(k)
 		sp, ok := live.m[string(kb)]
 		if !ok {
@@ -276,7 +295,14 @@ func (c SPConf) Build() *saml2.SAMLServiceProvider {
 			return sp
 		}
 		f := c.build()
-		sp.Clock, sp.AudienceURI, sp.IDPCertificateStore = f.Clock, f.AudienceURI, f.IDPCertificateStore
+		dst, src := reflect.ValueOf(sp).Elem(), reflect.ValueOf(f).Elem()
+		for i := 0; i < dst.NumField(); i++ {
+			ft := dst.Type().Field(i)
+			if ft.PkgPath != "" || ft.Name == "SPKeyStore" || ft.Name == "SPSigningKeyStore" {
+				continue // unexported state and the key stores stay with the instance
+			}
+			dst.Field(i).Set(src.Field(i))
+		}
 		return sp
 	}
 	return c.build()
